@@ -46,6 +46,7 @@ RULE = ("a grammar program (C01's space) is re-named adversarially: "
         "reserved-pattern names may be rejected; any other failure counts "
         "unless the plainly named program fails alike.  non-trivial = >= 2 "
         "user names from the adversarial pool in use; distinct by case")
+RULE += '  Round-4 additions: 30 enumerated programs (CSR product + reduction) whose inputs carry names the generator derives (_pt_sum_r0_ubound/_lbound, _pt_temp_dim0, out0_dim0, _pt_temp_store, acc__pt_sum_r0, ...); with a reserved-pattern user name a failure counts as rejection only if the kernel pytato returned does not carry that name a second time (as temporary, loop variable or second argument).'
 ASSUMPTIONS = [
     "C / OpenCL keywords and loopy built-in identifiers (lid, gid, int, ...) "
     "are not used as user names: the property concerns pytato's name "
